@@ -44,7 +44,7 @@ PREFIX = '@charset "'
 BOMS = [(b'\xef\xbb\xbf', 'utf-8-sig'), (b'\xff\xfe\x00\x00', 'utf-32'), (b'\x00\x00\xfe\xff', 'utf-32'),
         (b'\xff\xfe', 'utf-16'), (b'\xfe\xff', 'utf-16')]
 PATTERNS = [(b'@\x00\x00\x00', 'utf-32-le'), (b'\x00\x00\x00@', 'utf-32-be'), (b'@\x00c\x00', 'utf-16-le'),
-            (b'\x00@', 'utf-16-be')]
+            (b'\x00@\x00c', 'utf-16-be')]
 
 
 def ref_detect(p, final):
